@@ -196,8 +196,14 @@ func runC33(c *core.Ctx) {
 			procs int
 			cpus  string
 		}{{"1cpu", 1, fmt.Sprint(c.Case % ncpu)}, {"2cpu", 4, fmt.Sprintf("%d,%d", c.Case%ncpu, (c.Case+1)%ncpu)}, {"allcpu", 16, ""}} {
+			if hangSeen[cfg.label] {
+				// this configuration already hung in this worker: reported once, do not wait again
+				c.Inc("child_skipped_after_hang")
+				continue
+			}
 			hs, err := runChild(spec, cfg.procs, cfg.cpus)
 			if hung, ok := err.(errChildHung); ok {
+				hangSeen[cfg.label] = true
 				c.Violate(fmt.Sprintf("execution-hangs[%s] fresh-process-%s", eng, cfg.label),
 					fmt.Sprintf("engine %s: the scenario that completes in this process did not finish within %s in a fresh process with %s (GOMAXPROCS=%d, cpus=%q)", eng, childDeadline, cfg.label, cfg.procs, cfg.cpus),
 					map[string]any{"engine": eng.String(), "config": cfg.label, "contract": s.Contract, "goroutine_dump": hung.dump, "seed": c.Seed, "case": c.Case})
